@@ -56,21 +56,23 @@ pub fn marker_menu() -> Vec<(&'static str, Vec<HSpec>)> {
             vec![m("eb"), ma("ea"), Op::Prepend("\x01p\x02".into(), true), Op::Append("\x01ap\x02".into(), true)],
         )]),
         ("mark-text(*)+comments(*)", vec![
-            HSpec::with_ops(HKind::Text, "*", vec![m("tb")]),
+            HSpec { last_only: true, ..HSpec::with_ops(HKind::Text, "*", vec![m("tb")]) },
             HSpec::with_ops(HKind::Comments, "*", vec![ma("ca")]),
         ]),
         ("mark-doc", vec![
-            HSpec::with_ops(HKind::DocText, "", vec![ma("dt")]),
+            HSpec { last_only: true, ..HSpec::with_ops(HKind::DocText, "", vec![ma("dt")]) },
             HSpec::with_ops(HKind::DocComments, "", vec![m("dc")]),
             HSpec::with_ops(HKind::DocEnd, "", vec![Op::Append("\x01end\x02".into(), true)]),
         ]),
         ("remove-el(a)", vec![HSpec::with_ops(HKind::Element, "a", vec![Op::Remove])]),
+        ("remove-text(*)", vec![HSpec::with_ops(HKind::Text, "*", vec![Op::Remove])]),
         ("rewrite-el(*)", vec![HSpec {
             kind: HKind::Element,
             sel: "*".into(),
             ops: vec![Op::SetAttr("k".into(), "v".into()), Op::SetTagName("q".into())],
             end_tag_ops: Some(vec![Op::After("\x01et\x02".into(), true)]),
             log: true,
+            last_only: false,
         }]),
         ("inner-el(title)", vec![HSpec::with_ops(
             HKind::Element,
@@ -129,13 +131,27 @@ pub fn adapt_to_encoding(input: &[u8], enc: &'static Encoding) -> Vec<u8> {
 pub enum Space {
     Frags { k: usize, max: usize },
     Bytes { max: usize },
+    /// every context prefix of CTX followed by every F-sequence
+    CtxFrags { k: usize, max: usize },
+    /// every context prefix of CTX followed by every B16-sequence
+    CtxBytes { max: usize },
 }
+
+/// Context prefixes that put the tokenizer into each of its non-initial modes before the
+/// enumerated tail starts (text modes, escaped script data, CDATA, doctype, select, foreign).
+pub const CTX: &[&str] = &[
+    "<script>", "<script><!--", "<script><!--<script>", "<title>", "<textarea>", "<style>",
+    "<xmp>", "<plaintext>", "<svg><![CDATA[", "<svg>", "<math><mi>", "<!DOCTYPE a ", "<select>",
+    "<!--", "<a b=\"", "<template><select>", "<svg><desc>", "<noscript>",
+];
 
 impl Space {
     pub fn size(&self) -> usize {
         match *self {
             Space::Frags { k, max } => count_upto(k, max),
             Space::Bytes { max } => count_upto(B16.len(), max),
+            Space::CtxFrags { k, max } => CTX.len() * count_upto(k, max),
+            Space::CtxBytes { max } => CTX.len() * count_upto(B16.len(), max),
         }
     }
     pub fn render(&self, i: usize, idx: &mut Vec<usize>, out: &mut Vec<u8>) {
@@ -148,12 +164,24 @@ impl Space {
                 seq_at(i, B16.len(), idx);
                 render_bytes(B16, idx, out);
             }
+            Space::CtxFrags { k, .. } => {
+                seq_at(i / CTX.len(), k, idx);
+                render_frags(F, idx, out);
+                out.splice(0..0, CTX[i % CTX.len()].bytes());
+            }
+            Space::CtxBytes { .. } => {
+                seq_at(i / CTX.len(), B16.len(), idx);
+                render_bytes(B16, idx, out);
+                out.splice(0..0, CTX[i % CTX.len()].bytes());
+            }
         }
     }
     pub fn label(&self) -> String {
         match *self {
             Space::Frags { k, max } => format!("F{k}<={max}"),
             Space::Bytes { max } => format!("B16<={max}"),
+            Space::CtxFrags { k, max } => format!("CTXxF{k}<={max}"),
+            Space::CtxBytes { max } => format!("CTXxB16<={max}"),
         }
     }
 }
@@ -197,4 +225,92 @@ pub fn normalise_events(events: &[Ev]) -> Result<Vec<Ev>, String> {
         return Err(format!("text node of handler #{reg} never got last_in_text_node"));
     }
     Ok(out)
+}
+
+/// Enumerate a whole input space in parallel; `f(i, raw_input)`.
+pub fn sweep_space(
+    ctx: &crate::explore::Ctx,
+    name: &str,
+    space: Space,
+    f: &(dyn Fn(usize, &[u8]) + Sync),
+) {
+    let n = space.size();
+    crate::explore::par_for(n, 32, |i| {
+        if ctx.over_time() {
+            return;
+        }
+        let mut idx = vec![];
+        let mut raw = vec![];
+        space.render(i, &mut idx, &mut raw);
+        f(i, &raw);
+    });
+    if !ctx.capped.load(std::sync::atomic::Ordering::Relaxed) {
+        ctx.level_done(name);
+    }
+}
+
+pub fn prep_menu(
+    menu: &[(&str, Vec<HSpec>)],
+    pick: &[&str],
+    strict: &[bool],
+    enc: &str,
+) -> Vec<Prepared> {
+    let mut v = vec![];
+    for (name, hs) in menu {
+        if !pick.is_empty() && !pick.contains(name) {
+            continue;
+        }
+        for &s in strict {
+            v.push(Prepared::new(Cfg::with(hs.clone()).strict(s).enc(enc)).unwrap());
+        }
+    }
+    v
+}
+
+/// Lenient normalisation for runs that ended in an error: an unterminated text node is kept.
+pub fn normalise_events_lenient(events: &[Ev]) -> Vec<Ev> {
+    let mut evs = events.to_vec();
+    // close every open node artificially
+    let mut open: std::collections::BTreeSet<u16> = Default::default();
+    for e in events {
+        if let Ev::Text { reg, last, .. } = e {
+            if *last {
+                open.remove(reg);
+            } else {
+                open.insert(*reg);
+            }
+        }
+    }
+    for reg in open {
+        // find the last chunk of this reg and mark it last
+        if let Some(Ev::Text { last, .. }) = evs
+            .iter_mut()
+            .rev()
+            .find(|e| matches!(e, Ev::Text { reg: r, .. } if *r == reg))
+        {
+            *last = true;
+        }
+    }
+    normalise_events(&evs).unwrap_or(evs)
+}
+
+/// Drop every source location (C02 compares content; ranges are C14's business, which has
+/// its own schedule-independence comparison).
+pub fn strip_text_locs(events: &mut [Ev]) {
+    for e in events {
+        match e {
+            Ev::Text { loc, .. }
+            | Ev::Comment { loc, .. }
+            | Ev::Doctype { loc, .. }
+            | Ev::EndTag { loc, .. } => *loc = (0, 0),
+            Ev::El { loc, attrs, .. } => {
+                *loc = (0, 0);
+                for a in attrs {
+                    a.nloc = None;
+                    a.vloc = None;
+                }
+            }
+            _ => {}
+        }
+    }
 }
